@@ -328,7 +328,13 @@ def run_unit(name, repo=None, rlimit=None, outdir=None, extra_args=(), solver=No
                     path2 = extract.write_unit(unit2, outdir)
                 fns2 = set(q for q, _ in drop)
                 sf, srl = _split_run(unit2, path2, outdir, fns2, rlimit, single_ok=True)
-                if sf is not None:
+                if sf is not None and _SPLIT_DIRTY:
+                    # without the hint the function does not compile, or something other than a postcondition fails (a loop
+                    # invariant, a callee precondition): the hint-free runs decide nothing - keep the hint failure itself,
+                    # which is reported for every property the function carries
+                    for ob in hint_obs:
+                        ob["message"] += " (hint-free re-verification undecided: %s)" % "; ".join(_SPLIT_DIRTY[:2])
+                elif sf is not None:
                     for x in sf:
                         x["unit"] = name
                         x["id"] = x["id"].replace(name + "_nohint::", name + "::", 1)
@@ -375,12 +381,14 @@ def _clause_spans(unit, f):
 
 
 _SPLIT_COVERED = []
+_SPLIT_DIRTY = []
 
 
 def _split_run(unit, path, outdir, fn_quals, rlimit, single_ok=False):
     import concurrent.futures as cf
     jobs = []
     del _SPLIT_COVERED[:]
+    del _SPLIT_DIRTY[:]
     for f in unit.fns:
         if f["qual"] not in fn_quals:
             continue
@@ -419,6 +427,8 @@ def _split_run(unit, path, outdir, fn_quals, rlimit, single_ok=False):
             msg = d.get("message", "")
             spans = d.get("spans", [])
             lines_ = [s_["line_start"] for s_ in spans]
+            if not msg.startswith("aborting due to") and not any(pat in msg for pat, _k in VERIF_FAIL) and not any(r in msg for r in RLIMIT):
+                _SPLIT_DIRTY.append("%s: %s" % (f["qual"], _norm(msg, 120)))      # the variant does not even compile: nothing was decided
             if not any(f["out_first"] <= l <= f["out_last"] for l in lines_):
                 continue
             if any(r in msg for r in RLIMIT):
@@ -429,6 +439,8 @@ def _split_run(unit, path, outdir, fn_quals, rlimit, single_ok=False):
                 for s_ in spans:
                     if not s_.get("is_primary") and s_.get("label"):
                         exit_loc = "%s (%s)" % (_origin(unit, s_["line_start"]), s_["label"])
+            elif any(pat in msg for pat, _k in VERIF_FAIL):
+                _SPLIT_DIRTY.append("%s: %s" % (f["qual"], _norm(msg, 120)))      # an invariant / precondition / assertion of the function fails
         try:
             os.remove(vpath)
         except OSError:
